@@ -98,7 +98,7 @@ def graft_histories(ck, n=5):
     with exactly the expected clades and outliers."""
     from . import c03
     from .. import gridoracle
-    cfg = tlc.cfg_text(constants={"N": n, "OutliersOn": "TRUE", "Dump": "TRUE"}, invariants=["FeatConsistent", "Emit"])
+    cfg = tlc.cfg_text(constants={"N": n, "OutliersOn": "TRUE", "Dump": "TRUE", "Starts": "{}"}, invariants=["FeatConsistent", "Emit"])
     r = tlc.run_tlc("c07_forests", "Density", cfg, timeout=3000)
     tlc.require_ok(r, "Density (forest enumeration)")
     ck.add_tlc("Density.tla N=%d: all forests (cut-and-graft histories)" % n, r)
